@@ -15,6 +15,8 @@
 #include <algorithm>
 #include <stdexcept>
 #include <unistd.h>
+#include <signal.h>
+#include <sys/time.h>
 #include <amgcl/backend/builtin.hpp>
 
 namespace vr {
@@ -48,6 +50,17 @@ inline bool thorough() {
 inline int env_int(const char *name, int def) {
     const char *s = getenv(name);
     return s && *s ? atoi(s) : def;
+}
+
+// ---------------------------------------------------------------- hang detection
+// "Does not return" is judged by the CPU time the process itself has consumed (ITIMER_PROF), so a loaded
+// machine cannot turn a slow run into a hang; the wall-clock alarm is only a far-away fallback for a
+// process that blocks without computing.  Either way the process dies of SIGALRM.
+inline void cpu_alarm(int cpu_seconds) {
+    signal(SIGPROF, [](int) { signal(SIGALRM, SIG_DFL); raise(SIGALRM); });
+    struct itimerval it; it.it_interval.tv_sec = 0; it.it_interval.tv_usec = 0; it.it_value.tv_sec = cpu_seconds; it.it_value.tv_usec = 0;
+    setitimer(ITIMER_PROF, &it, 0);
+    alarm(60 * (unsigned)cpu_seconds);
 }
 
 // ---------------------------------------------------------------- JSON
